@@ -139,3 +139,44 @@ FUNCTIONS.update({
 EXTERNS.update({
   'functools.partial': dict(params=[('fn', 'any')], varargs=True, returns='any', ensures=['result is not None'], allocates=True),
 })
+
+
+# ---------------------------------------------------------------------------- ContinueWith / Map (C17)
+CLASSES.update({
+  # a user callback taking one argument; ghost: how often it ran and with what
+  'Callback1': dict(extern=True, path=None, bases=[], fields={'g_calls': 'int', 'g_arg': 'any', 'g_ret': 'any'}, ghost=['g_calls', 'g_arg', 'g_ret']),
+})
+
+FUNCTIONS.update({
+  # the continuation body: whatever fn does -- return, raise an ordinary exception, or raise one of the BaseException-only
+  # ones gevent uses (Timeout, GreenletExit) -- the continuation's result is completed exactly once and nothing escapes
+  'AsyncResult.ContinueWith.continue_with_callback.run': dict(
+    captures={'fn': 'Callback1', '_ar': 'AsyncResult', 'cw_ar': 'AsyncResult'}, returns='none',
+    requires=['allocated(cw_ar)', 'allocated(fn)'],
+    ensures=['cw_ar.g_sets == old(cw_ar.g_sets) + 1', 'fn.g_calls == old(fn.g_calls) + 1 and fn.g_arg == _ar',
+             'implies(cw_ar.exception is None, cw_ar.value == fn.g_ret)'],
+    modifies=['AsyncResult.g_sets', 'AsyncResult.value', 'AsyncResult.exception', 'AsyncResult.g_ready', 'Callback1.g_calls', 'Callback1.g_arg', 'Callback1.g_ret', '$cls'],
+    allocates=True,
+    props=['C17'],
+  ),
+  # Map applies fn only to a successful value; a failed source is passed on as it is (decided when the source has
+  # completed, i.e. inside the continuation -- not when Map is called)
+  'AsyncResult.Map.mapper': dict(
+    params={'_': 'any'}, captures={'self': 'AsyncResult', 'fn': 'Callback1'}, returns='any',
+    requires=['allocated(fn)', 'allocated(self)'],
+    ensures=['implies(truthy(old(self.exception)), result == self and fn.g_calls == old(fn.g_calls))',
+             'implies(not truthy(old(self.exception)), fn.g_calls == old(fn.g_calls) + 1 and fn.g_arg == old(self.value) and result == fn.g_ret)'],
+    raises={'Exception': dict(ensures=['not truthy(old(self.exception))']), 'GreenletExit': dict(), 'Timeout': dict()},
+    modifies=['Callback1.g_calls', 'Callback1.g_arg', 'Callback1.g_ret'], allocates=True,
+    props=['C17'],
+  ),
+})
+
+EXTERNS.update({
+  'Callback1.__call__': dict(params=[('x', 'any')], returns='any', may_raise=['Exception', 'GreenletExit', 'Timeout'], allocates=True,
+                             modifies=['Callback1.g_calls', 'Callback1.g_arg', 'Callback1.g_ret'],
+                             ensures=['self.g_calls == old(self.g_calls) + 1', 'self.g_arg == x', 'self.g_ret == result'],
+                             raise_ensures=['self.g_calls == old(self.g_calls) + 1', 'self.g_arg == x'],
+                             notes='a user continuation: may return anything or raise anything, including gevent.Timeout / GreenletExit (BaseException only)'),
+  'sys.exc_info': dict(params=[], returns='tuple[any,any,any]', ensures=['result[1] is not None'], notes='inside an except block: the exception being handled'),
+})
